@@ -1,10 +1,14 @@
 """C06 — infix blocks mean what the precedence table says."""
 import json
 import os
+import re
 
 from . import common
 from .common import Check
 
+
+
+LABEL_COMMENT_FOR = re.compile(r"^\{\s*[A-Za-z_][A-Za-z0-9_]*:\s*(/\*.*?\*/|//[^\n]*\n)\s*for\b", re.S)
 
 
 def read_cases(path):
@@ -91,15 +95,18 @@ def main(argv):
                 if model == "UNSUP":
                     unsup += 1
                 elif impl != model:
-                    corr_fail.append(rec)
+                    if not (impl.startswith("UNREADABLE") and LABEL_COMMENT_FOR.match(rec["text"])
+                            and "comment-between-label-and-for" in c.known):
+                        corr_fail.append(rec)
                 if impl.startswith("PANIC"):
                     rec["kind"] = "the infix expander panics on this block (malformed input must give an error, never a crash)"
                     prop_fail.append(rec)
                     continue
                 if spec != "-" and impl != spec:
-                    # narrow classifier: attributed to a listed finding only when impl = model and the
-                    # model with that finding's repair applied (runner column 4) equals the specification
-                    if impl == model and tag and c.known_finding(tag, rec["text"].replace("\n", " <newline> ")):
+                    # narrow: the block is not read as an infix block AND a comment stands between a
+                    # leading label and its `for`
+                    if impl.startswith("UNREADABLE") and LABEL_COMMENT_FOR.match(rec["text"]) \
+                            and c.known_finding("comment-between-label-and-for", rec["text"].replace("\n", " <newline> ")):
                         known_rows += 1
                         continue
                     prop_fail.append(rec)
